@@ -505,6 +505,9 @@ def errline(err):
 
 ROUTES = ("text", "modify", "reread", "storagebin", "serializer")
 TEXT_ROUTES = ("text", "modify", "reread")      # the state travels as 14-digit text
+# follow-ups judged on the in-memory copies only (exact copies): solution 2 has no redox buffer, so after a 14-digit text
+# restore its pe is arbitrary (finding F34) and a calculation that starts from it can end anywhere or fail to converge
+MEMORY_ONLY = ("foreign-water",)
 
 
 def run_case(case):
@@ -665,7 +668,7 @@ def _run_case(d, case, out):
             if len(tabA) < 2:
                 raise RuntimeError("follow-up %s produced no selected-output row (%s)" % (fname, case_name(case)))
             for route, s in (("text", B if okB else None), ("modify", M)):
-                if s is None:
+                if s is None or fname in MEMORY_ONLY:
                     continue
                 out["phase"] = "follow-up %s on the state re-instated via %s" % (fname, route)
                 rcX, errX, _ = rs(d, s, text)
@@ -691,7 +694,7 @@ def _run_case(d, case, out):
                 out["ops"] += 1
             for fname, text in F:
                 rcA, tabA = ref[fname]
-                if rcA != 0:
+                if rcA != 0 or (route in TEXT_ROUTES and fname in MEMORY_ONLY):
                     continue
                 out["phase"] = "follow-up %s on the state re-instated via %s" % (fname, route)
                 with Fork(d):
